@@ -17,6 +17,7 @@ import (
 	"github.com/ipld/go-storethehash/store/freelist"
 	"github.com/ipld/go-storethehash/store/primary"
 	"github.com/ipld/go-storethehash/store/types"
+	"github.com/ipld/go-storethehash/store/vhook"
 	"github.com/multiformats/go-multihash"
 )
 
@@ -102,6 +103,7 @@ func Open(path string, freeList *freelist.FreeList, fileCache *filecache.FileCac
 	header, err := readHeader(headerPath)
 	if os.IsNotExist(err) {
 		// If header does not exist, then upgrade primary.
+		vhook.At("mh.open.before-upgrade")
 		lastPrimaryNum, err = upgradePrimary(context.Background(), path, headerPath, maxFileSize, freeList)
 		if err != nil {
 			return nil, fmt.Errorf("error upgrading primary: %w", err)
@@ -128,6 +130,7 @@ func Open(path string, freeList *freelist.FreeList, fileCache *filecache.FileCac
 		}
 	}
 
+	vhook.At("mh.open.before-file")
 	file, err := os.OpenFile(primaryFileName(path, lastPrimaryNum), os.O_RDWR|os.O_APPEND|os.O_CREATE, 0o644)
 	if err != nil {
 		return nil, err
@@ -217,6 +220,7 @@ func (cp *MultihashPrimary) Get(blk types.Block) ([]byte, []byte, error) {
 		return key, value, nil
 	}
 
+	vhook.At("mh.get.after-cache")
 	localPos, fileNum := localizePrimaryPos(blk.Offset, cp.maxFileSize)
 
 	file, err := cp.fileCache.Open(primaryFileName(cp.basePath, fileNum))
@@ -296,10 +300,12 @@ func (cp *MultihashPrimary) flushBlock(key []byte, value []byte) (types.Work, er
 			return 0, fmt.Errorf("creating primary file overwrites existing, check file size, gc and path (maxFileSize=%d) (path=%s)", cp.maxFileSize, primaryPath)
 		}
 
+		vhook.At("mh.flushblock.roll.before-open")
 		file, err := os.OpenFile(primaryPath, os.O_RDWR|os.O_APPEND|os.O_CREATE, 0o644)
 		if err != nil {
 			return 0, fmt.Errorf("cannot open new primary file %s: %w", primaryPath, err)
 		}
+		vhook.At("mh.flushblock.roll.before-flush-old")
 		if err = cp.writer.Flush(); err != nil {
 			return 0, fmt.Errorf("cannot write to primary file %s: %w", cp.file.Name(), err)
 		}
@@ -309,6 +315,7 @@ func (cp *MultihashPrimary) flushBlock(key []byte, value []byte) (types.Work, er
 		cp.file = file
 		cp.fileNum = fileNum
 		cp.length = 0
+		vhook.At("mh.flushblock.rolled")
 	}
 
 	size := len(key) + len(value)
@@ -371,6 +378,7 @@ func (cp *MultihashPrimary) Flush() (types.Work, error) {
 	cp.nextPool = newBlockPool()
 	cp.outstandingWork = 0
 	cp.poolLk.Unlock()
+	vhook.At("mh.flush.swapped")
 
 	// The pool lock is released allowing Put to write to nextPool. The
 	// flushLock is still held, preventing concurrent flushes from changing the
@@ -384,11 +392,13 @@ func (cp *MultihashPrimary) Flush() (types.Work, error) {
 		}
 		work += blockWork
 	}
+	vhook.At("mh.flush.before-write")
 	err := cp.writer.Flush()
 	if err != nil {
 		return 0, fmt.Errorf("cannot flush data to primary file %s: %w", cp.file.Name(), err)
 	}
 
+	vhook.At("mh.flush.written")
 	return work, nil
 }
 
@@ -413,6 +423,7 @@ func (mp *MultihashPrimary) Close() error {
 	}
 	mp.gcMutex.Unlock()
 
+	vhook.At("mh.close.gc-stopped")
 	mp.fileCache.Clear()
 
 	_, err := mp.Flush()
@@ -421,6 +432,7 @@ func (mp *MultihashPrimary) Close() error {
 		return err
 	}
 
+	vhook.At("mh.close.flushed")
 	return mp.file.Close()
 }
 
